@@ -433,12 +433,21 @@ def index(R, v, idx):
         i = R.z(idx, 'int')
         n = z3.Length(e)
         if R.total_access:
+            if known_nonneg(R, i):
+                return R.wrap(e[z3.simplify(i)], k)
             return R.wrap(e[z3.simplify(norm_index(R, n, i))], k)
         if not R.choose(z3.And(i >= -n, i < n)):
             raise PyRaise('IndexError')
         j = z3.simplify(norm_index(R, n, i))
         return R.wrap(e[j], k)
     raise OutOfReach('index on %r' % (v,))
+
+
+def known_nonneg(R, e):
+    e = z3.simplify(e)
+    if z3.is_int_value(e):
+        return e.as_long() >= 0
+    return not R.feasible(e < 0)
 
 
 def py_slice_bounds(n, lo, hi):
@@ -472,7 +481,16 @@ def slice_(R, v, lo, hi):
         if hi <= a:
             return ZV(z3.Empty(z3.SeqSort(R.S.sort_of(k))), ('seq', k))
         return ZV(z3.SubSeq(e, z3.IntVal(a), z3.IntVal(hi - a)), ('seq', k))
-    l, h = py_slice_bounds(n, None if lo is None else R.z(lo, 'int'), None if hi is None else R.z(hi, 'int'))
+    # symbolic bounds that are provably non-negative on this path need no wrap-around encoding
+    zl = None if lo is None else R.z(lo, 'int')
+    zh = None if hi is None else R.z(hi, 'int')
+    if (zl is None or known_nonneg(R, zl)) and (zh is None or known_nonneg(R, zh)):
+        a = zl if zl is not None else z3.IntVal(0)
+        if zh is None:
+            return ZV(z3.SubSeq(e, a, n - a), ('seq', k))
+        return ZV(z3.SubSeq(e, a, z3.If(zh - a < 0, z3.IntVal(0), zh - a)) if zl is not None
+                  else z3.SubSeq(e, z3.IntVal(0), zh), ('seq', k))
+    l, h = py_slice_bounds(n, zl, zh)
     ln = z3.If(h - l < 0, z3.IntVal(0), h - l)
     return ZV(z3.simplify(z3.SubSeq(e, l, ln)), ('seq', k))
 
